@@ -156,6 +156,49 @@ CHECKS = {
         'numeric universals are decided over a finite data lattice; '
         'tolerance 30*eps*(1+kappa) with kappa from the stored factors.',
         '3/C01'),
+    'C04': (
+        'bounded-exhaustive enumeration of a configuration box x train/eval '
+        'histories on the real code (single process and simulated worlds) '
+        'against reference moments from a K-FAC-free twin',
+        'Every configuration in the box (layer geometries, batch, decay '
+        'constants and schedule, accumulation, hook/no-hook, loss scales '
+        'incl. changing per step, factor dtypes, factor interval) is run '
+        'over train/eval histories; after every step the state_dict factors '
+        'are compared with the float64 decayed running average of second '
+        'moments computed from inputs / output gradients captured on a '
+        'deep-copied twin without K-FAC; symmetry, PSD, dtype, bit-stability '
+        'across eval passes and non-update steps; worlds of 2 and 3 ranks '
+        'under two schedules for the mean over ranks.',
+        'values from a fixed lattice; quick runs one history per '
+        'configuration.',
+        '3/C04'),
+    'C07': (
+        'bounded-exhaustive enumeration of a configuration box on the real '
+        'code, differential run (clipping disabled vs value under test) on '
+        'identical states, in single process and simulated worlds',
+        'Each configuration (models, methods, kl_clip constants / callable '
+        '/ None, lr incl. 0 and callable, all-zero gradients, worlds 2 and 4 '
+        'under all strategies and two schedules) is executed twice with '
+        'model updates disabled: once with kl_clip=1e30 to obtain V, once '
+        'with the value under test; on every layer, step and rank the '
+        'result must equal nu*V with nu recomputed from the stated formula.',
+        'values from a fixed lattice; GPT-NeoX clipping is covered by C11.',
+        '3/C07'),
+    'C10': (
+        'bounded-exhaustive enumeration of programs (all multisets of <=3 '
+        'leaf modules of 13 kinds as parallel branches) x dtypes x methods '
+        'x train/eval mode histories on the real code with bit-exact '
+        'snapshots',
+        'For every program, model state_dict and every .grad tensor (value, '
+        'shape, dtype, device, contiguity) are snapshotted around step(); '
+        'parameters, buffers and unregistered gradients must be bit-equal, '
+        'registered gradients keep their metadata and stay finite; a digest '
+        'of all K-FAC state must be unchanged by eval-mode passes; outputs '
+        'and autograd gradients must be bit-equal to a deep-copied twin '
+        'without K-FAC.',
+        'leaf kinds and sizes from a fixed catalogue; quick runs 2 of 8 '
+        'mode histories per program.',
+        '3/C10'),
 }
 
 NOT_YET = 'check not built yet (work in progress, see DESIGN.md section 8)'
